@@ -14,6 +14,8 @@ import (
 	"sort"
 	"strings"
 	"time"
+
+	"golang.org/x/tools/go/ssa"
 )
 
 type Obligation struct {
@@ -45,6 +47,7 @@ type CheckCtx struct {
 	Self    []selfTestResult
 	cache   map[string]*Analysis
 	seen    map[string]bool
+	located map[string]*ssa.Function
 }
 
 type Check struct {
